@@ -238,7 +238,7 @@ func work(id string, p Prop, args []string) int {
 		}
 		// determinism spot check: the same case run again in this process must produce
 		// the same verdict and the same event fingerprint
-		if i%97 == 3 && !v.Violation {
+		if i%97 == 3 && !v.Violation && v.Discard == "" {
 			v2 := p.Run(c)
 			o.DetChecked++
 			if v2.Fingerprint != v.Fingerprint || v2.Violation != v.Violation || v2.Discard != v.Discard {
@@ -248,7 +248,7 @@ func work(id string, p Prop, args []string) int {
 		if v.Known != "" {
 			o.Known[v.Known]++
 		}
-		if v.Violation {
+		if v.Violation && v.Known == "" {
 			rec := ViolationRec{RunSeed: rs, Class: v.Class, Detail: v.Detail}
 			if *out != "" {
 				rec.CaseFile = fmt.Sprintf("%s/viol-%s-%s-w%d-%d.json", *out, id, *planName, *worker, len(o.Violations))
